@@ -470,3 +470,68 @@ Proof.
   destruct (last_drop cap handler evs s rs outs (fuel_of s) R Hh (mu_fuel_of s))
     as (_ & A & B & C & D & _). auto.
 Qed.
+
+(* ------------------------------------------------------------------ the harness-level (macro-step) view *)
+(* [settle] is a run of background events that are not completions of the wrapped sink *)
+Lemma settle_run fixed fuel : forall s,
+  exists evs rs, Forall worker_side evs /\ Forall (fun ev => ~ is_finish ev) evs /\
+                 run fixed s evs = Some (settle fixed fuel s, rs).
+Proof.
+  induction fuel as [|f IH]; intros s; cbn [settle].
+  - exists [], []. repeat split; constructor.
+  - destruct (internal_step fixed s) as [s1|] eqn:Ei.
+    + apply internal_step_cases in Ei. destruct Ei as (ev & W & N & E).
+      destruct (IH s1) as (evs & rs & Wf & Nf & R).
+      exists (ev :: evs), (RNone :: rs). split; [constructor; assumption|].
+      split; [constructor; assumption|]. cbn [run]. rewrite E, R. reflexivity.
+    + exists [], []. repeat split; constructor.
+Qed.
+
+(* with enough fuel it stops only when no internal step is enabled: the worker then waits for
+   the wrapped sink, for a message, or has exited *)
+Lemma settle_done fixed fuel : forall s, mu s < fuel -> internal_step fixed (settle fixed fuel s) = None.
+Proof.
+  induction fuel as [|f IH]; intros s Hmu; [lia|]. cbn [settle].
+  destruct (internal_step fixed s) as [s1|] eqn:Ei; [|exact Ei].
+  pose proof Ei as Ei'. apply internal_step_cases in Ei'. destruct Ei' as (ev & W & _ & E).
+  apply IH. pose proof (mu_step _ _ _ _ _ W E). lia.
+Qed.
+
+(* every macro-step of the correspondence harness is a run of the small-step machine *)
+Lemma act_run fixed s a :
+  exists evs rs, run fixed s evs = Some (fst (act fixed s a), rs).
+Proof.
+  assert (Hnil : exists evs rs, run fixed s evs = Some (s, rs)) by (exists [], []; reflexivity).
+  assert (Hgen : forall ev s1 x, step fixed s ev = Some (s1, x) ->
+            exists evs rs, run fixed s evs = Some (settle fixed (fuel_of s1) s1, rs)).
+  { intros ev s1 x E. destruct (settle_run fixed (fuel_of s1) s1) as (evs & rs & _ & _ & R).
+    exists (ev :: evs), (x :: rs). cbn [run]. rewrite E, R. reflexivity. }
+  destruct a; cbn [act].
+  - destruct (step fixed s ETrySend) as [[s1 x]|] eqn:E; cbn [fst]; [eapply Hgen; exact E | exact Hnil].
+  - destruct (step fixed s EClone) as [[s1 x]|] eqn:E; cbn [fst]; [eapply Hgen; exact E | exact Hnil].
+  - destruct (step fixed s EDropH) as [[s1 x]|] eqn:E; cbn [fst]; [eapply Hgen; exact E | exact Hnil].
+  - destruct (step fixed s (EWFinish o)) as [[s1 x]|] eqn:E; cbn [fst]; [eapply Hgen; exact E | exact Hnil].
+  - cbn [fst]. exact Hnil.
+Qed.
+
+Lemma acts_run fixed l : forall s,
+  exists evs rs, run fixed s evs = Some (fst (acts fixed s l), rs).
+Proof.
+  induction l as [|a l IH]; intro s; cbn [acts].
+  - exists [], []. reflexivity.
+  - destruct (act fixed s a) as [s1 o] eqn:Ea.
+    destruct (acts fixed s1 l) as [s2 os] eqn:El. cbn [fst].
+    destruct (act_run fixed s a) as (evs1 & rs1 & R1). rewrite Ea in R1. cbn [fst] in R1.
+    destruct (IH s1) as (evs2 & rs2 & R2). rewrite El in R2. cbn [fst] in R2.
+    exists (evs1 ++ evs2), (rs1 ++ rs2). eapply run_app; eassumption.
+Qed.
+
+(* hence every state the harness-level scripts reach is a reachable state of the small-step
+   machine: the invariant and all its consequences apply to it *)
+Theorem acts_reach cap handler l :
+  exists evs rs, run true (init_q cap handler) evs = Some (fst (acts true (init_q cap handler) l), rs) /\
+                 Inv (fst (acts true (init_q cap handler) l)).
+Proof.
+  destruct (acts_run true l (init_q cap handler)) as (evs & rs & R).
+  exists evs, rs. split; [exact R | exact (inv_reach _ _ _ _ _ R)].
+Qed.
